@@ -682,7 +682,7 @@ def gen_bump(rng, mode=None, linear_comp=None):
     return {"k": "bump", "comp": comp, "par": par}
 
 
-def gen_owner(rng, name, comps, mode, small=False):
+def gen_owner(rng, name, comps, mode, small=False, like=None):
     """a repository that pins the repositories `comps` = [(name, spec)] (each with at least one numbered build).
     mode 'domain': every commit pins an existing build of every component and no pin decreases along a path;
     'wild': anything.  The pins of the components move independently of one another: a pin stays while another
@@ -703,6 +703,8 @@ def gen_owner(rng, name, comps, mode, small=False):
     PM = rng.choice([5, 5, 5, 5, 0, 0, 10, first[0][0]])
     pm0 = rng.choice([1, 1, 1, 0, 0, 9, 99])
     poff = rng.choice(BUILD_OFFSETS[:-1])
+    if like is not None:
+        PM, pm0, poff = like["gen"]       # a sibling repository: the same release series and build numbers
     names = [f"release/{PM}.{pm0}", f"release/{PM}.{pm0 + 1}", "master"]
     if nb < 3 and rng.random() < 0.5:
         names = names[:nb - 1] + ["master"] if nb > 1 else rng.choice([[names[0]], ["master"]])
@@ -760,7 +762,7 @@ def gen_owner(rng, name, comps, mode, small=False):
     cnames = [cn for cn, _ in comps]
     rng.shuffle(cnames)
     return {"name": name, "comps": cnames, "ghosts": ["ghost"] if ghost else [], "files": files, "frev": int(rng.random() < 0.5),
-            "commits": _unique_tag_names(spec), "branches": branches}
+            "commits": _unique_tag_names(spec), "branches": branches, "gen": [PM, pm0, poff]}
 
 
 # shapes of a collection: (number of repositories, {index: indices of the repositories it pins}); leaves first
@@ -787,14 +789,25 @@ def gen_multi(rng, topo=None, mode=None):
     repos = []
     for i in range(n):
         if i not in deps:
+            twin = [r for r in repos if not r["comps"]]
+            if twin and rng.random() < 0.3:
+                # a twin of another component: the same history, tags and version numbers (so every key that is not
+                # qualified by the repository coincides), other matching commits
+                comp = json.loads(json.dumps({"commits": twin[0]["commits"], "branches": twin[0]["branches"]}))
+                for c in comp["commits"]:
+                    c["m"] = int(rng.random() < 0.5)
+                repos.append(dict(comp, name=names[i], comps=[]))
+                continue
             for _ in range(50):
                 comp = gen_component(rng, rng.random() < 0.5, two_branches=rng.random() < 0.2)
                 if any(not has_qm(v) for c in comp["commits"] for v in versions(c)):
                     break
             repos.append(dict(comp, name=names[i], comps=[]))
         else:
+            sib = [r for r in repos if r.get("comps") and set(r["comps"]) & {names[j] for j in deps[i]}]
+            like = sib[0] if sib and rng.random() < 0.6 else None
             for _ in range(50):
-                own = gen_owner(rng, names[i], [(names[j], repos[j]) for j in deps[i]], mode, small=True)
+                own = gen_owner(rng, names[i], [(names[j], repos[j]) for j in deps[i]], mode, small=True, like=like)
                 if any(not has_qm(v) for c in own["commits"] for v in versions(c)):
                     break
             repos.append(own)
@@ -1012,7 +1025,8 @@ def _run_bump(case):
                 pbr.append([bnames[r["name"]].index(rbranch.branch_name), rbs])
             graphs[r["name"]]["par"] = pbr
         vers = [[[_bn3(tuple(b)) for b in bs] for bs in one] for one in vers]
-    except (ValueError, KeyError) as e:
+    except (ValueError, KeyError, AttributeError, TypeError, IndexError) as e:
+        # the report holds something that is no build number / no RBuild / no branch of the collection
         return {"r": ["unmodelled", repr(e)]}
     return {"r": ["ok"], "vers": vers, "graphs": [graphs[n] for n in names], "sorted_repos": list(rc.sorted_repos),
             "again": again}
